@@ -391,7 +391,16 @@ def _point_part(draw, sh, plain):
         extra["enthalpy"] = draw(st.lists(st.floats(-50, 50).map(lambda x: (round(x, 4) if grid else x) + 0.0),
                                           min_size=n, max_size=n))
     if "note" in sh["extras"]:
-        extra["note"] = draw(st.lists(st.sampled_from(["a", "b", "cd", "x-1", "B2"]), min_size=n, max_size=n))
+        pool = draw(st.sampled_from([["a", "b", "cd", "x-1", "B2"]] * 2 + [["1", "2a", "3", "repeat", "2.5", "rep-2"]]))
+        note = draw(st.lists(st.sampled_from(pool), min_size=n, max_size=n))
+        # run labels that mix numbers and words. A column (CSV) or loop (AIF: one per branch) made ONLY of text that spells
+        # numbers is the sniffing class of the open finding KF-C07-11, so every branch keeps at least one word
+        marks = part.get("branch") or data["branch_true"]
+        for b in (0, 1):
+            rows = [i for i in range(n) if marks[i] == b]
+            if rows and all(note[i] in ("1", "3", "2.5") for i in rows):
+                note[rows[0]] = "2a"
+        extra["note"] = note
     if "cycle" in sh["extras"]:
         extra["cycle"] = draw(st.lists(st.integers(0, 5), min_size=n, max_size=n))
     if extra:
